@@ -1,6 +1,7 @@
 """Property id -> check function(work, tier, seed, replay) -> exit code."""
-import checks_seq, checks_ops
+import checks_seq, checks_ops, checks_bastion
 
 CHECKS = {}
 CHECKS.update(checks_seq.CHECKS)
 CHECKS.update(checks_ops.CHECKS)
+CHECKS.update(checks_bastion.CHECKS)
